@@ -31,6 +31,9 @@ MENU = ['fail', 'error', 'fail@1', 'error@2', 'sub_skip', 'uxs', 'skip_dec', 'sk
         'skip_body', 'xfail', 'sub:1,0,1', 'sub:2,0,0', 'sub:1,1,0',
         'sub:0,0,2', 'setup_err', 'teardown_err', 'body+teardown',
         'fail+teardown', 'cleanup_err']
+# test objects whose countTestCases() is not 1 (the runner counts a test
+# object as countTestCases() tests)
+CMENU = [{'s': 'pass', 'ctc': 0}, {'s': 'fail', 'ctc': 0}, {'s': 'pass', 'ctc': 3}]
 HMENU = [{'s': 'sub:1,1,0', 'subm': 'page one\x0cpage two\u2028three\x85four\x1cfive\x0bsix'}]
 DMENU = [{'dt': 'string', 's': 'fail', 'dk': 'diff'}, {'dt': 'file', 's': 'fail', 'dk': 'exc'},
          {'dt': 'string', 's': 'pass'}, {'dt': 'file', 's': 'pass'}]
@@ -44,7 +47,7 @@ def cases(tier, seed):
     K = 1 if tier == 'quick' else 2
     vs = [0, 1, 2] if tier == 'quick' else [0, 1, 2, 3]
     modes = ['seq', 'j2', 'j2+late'] if tier == 'quick' else ['seq', 'j2', 'j3', 'j2+late']
-    menu = worlds.rot(MENU + DMENU + HMENU, seed)
+    menu = worlds.rot(MENU + DMENU + HMENU + CMENU, seed)
     for shape in ow.SHAPES:
         nslots = len(ow.SHAPES[shape][1])
         items = []
@@ -88,7 +91,7 @@ def run_case(case):
     res = runrt.run_world(spec, argv, child_hook=hook)
     sv = monitors.SpecView(spec)
     truth = ow.Truth(spec, res)
-    kinds = sorted({((s.get('dt', '') + s['s'] + ('+subm' if 'subm' in s else '')) if isinstance(s, dict) else s) for s in sc if s != 'pass'})
+    kinds = sorted({((s.get('dt', '') + s['s'] + ('+subm' if 'subm' in s else '') + ('+ctc%d' % s['ctc'] if 'ctc' in s else '')) if isinstance(s, dict) else s) for s in sc if s != 'pass'})
     sig = {'mode': mode, 'v': min(v, 1), 'rep': rep, 'scripts': kinds,
            'lf': sorted(h for d in lf.values() for h in d), 'bm': bm}
     viol = []
@@ -121,7 +124,11 @@ def run_case(case):
             k = len(runs) // rep if rep else len(runs)
             if len(runs) % rep:
                 V('harness_iteration_split', 'layer %s ran %d times under --repeat %d' % (lay, len(runs), rep))
-            per_layer_tests[(vpid, lay)] = k
+            def ctc(tid):
+                c = sv.tests[tid].get('ctc')
+                return 1 if c is None else c
+            kk = sum(ctc(tid) for tid in runs[:k])
+            per_layer_tests[(vpid, lay)] = kk
             for it in range(rep):
                 f = e = s = 0
                 for tid in runs[it * k:(it + 1) * k]:
@@ -136,7 +143,7 @@ def run_case(case):
                             s += 1
                 if vpid != 0:
                     skips_in_children += s
-                want.append((k, f, e + bm, s))
+                want.append((kk, f, e + bm, s))
         if got != want:
             V('layer_summary', 'process %s prints Ran lines %s, trace says %s' % (vpid, got, want))
     # ---- totals
